@@ -20,6 +20,15 @@ fn main() {
         }
         i += 1;
     }
+    if id == "tableau" {
+        for m in [ivp::prelude::Method::RADAU] {
+            match tableau::extract(m, 1.0) {
+                Ok(ex) => println!("{:?}\nb={:?}\nbtheta={:?}", ex.a, ex.b, ex.btheta),
+                Err(e) => println!("ERR {}", e),
+            }
+        }
+        std::process::exit(0);
+    }
     if id == "regress" {
         let mut bad = 0;
         for r in regress::all() {
@@ -35,6 +44,7 @@ fn main() {
         }
     }
     let code = match id {
+        "C02" => c02::run_check(replay),
         "C03" => c03::run_check(replay),
         "C04" => c04::run_check(&args, replay),
         "C05" => c05::run_check(replay),
@@ -44,6 +54,7 @@ fn main() {
         "C06" => c06::run_check(replay),
         "C11" => c11::run_check(replay),
         "C12" => c12::run_check(replay),
+        "C07" => c07::run_check(replay),
         "C16" => c16::run(replay),
         "C17" => c17::run(replay),
         "C18" => c18::run_check(replay),
